@@ -102,7 +102,7 @@ type bcase struct {
 	isNil bool
 }
 
-func nilCase() bcase         { return bcase{isNil: true} }
+func nilCase() bcase           { return bcase{isNil: true} }
 func bytesCase(b []byte) bcase { return bcase{b: append([]byte{}, b...)} }
 
 // fresh returns a new copy: the code under test may keep or modify what it is
@@ -314,8 +314,8 @@ func (a plainAddr) String() string { return a.s }
 
 type customAddr struct{ ap netip.AddrPort }
 
-func (customAddr) Network() string             { return "custom" }
-func (a customAddr) String() string            { return a.ap.String() }
+func (customAddr) Network() string            { return "custom" }
+func (a customAddr) String() string           { return a.ap.String() }
 func (a customAddr) AddrPort() netip.AddrPort { return a.ap }
 
 func (x netaddrIn) netAddr() net.Addr {
